@@ -89,6 +89,7 @@ func verifC15(valLen int, mode string) {
 	if err != nil {
 		return
 	}
+	verifAssert(verifSem(t1) == verifSem(t), "the parsed type means the same as the original (family, storage class, size, precision, scale, sign, values)")
 	_, unsupported := t1.(*schema.UnsupportedType)
 	verifAssert(!unsupported, "a formatted type parses to a supported type")
 	s1, err := FormatType(t1)
@@ -99,6 +100,79 @@ func verifC15(valLen int, mode string) {
 	verifAssert(err == nil, "second parse")
 	s2, _ := FormatType(t2)
 	verifAssert(s2 == s1, "format/parse is idempotent")
+}
+
+// verifSem is an independent semantic projection of a MySQL type (what the
+// server would store), used to compare a type with its format/parse image.
+func verifSem(t schema.Type) string {
+	switch t := t.(type) {
+	case *BitType:
+		n := t.Size
+		if n == 0 {
+			n = 1 // BIT == BIT(1)
+		}
+		return fmt.Sprintf("bit/%d", n)
+	case *schema.BoolType:
+		return "bool"
+	case *schema.BinaryType:
+		n := -1
+		if t.Size != nil {
+			n = *t.Size
+		}
+		if t.T == TypeBinary && n == -1 {
+			n = 1 // BINARY == BINARY(1)
+		}
+		return fmt.Sprintf("%s/%d", t.T, n)
+	case *schema.DecimalType:
+		p, sc := t.Precision, t.Scale
+		if p == 0 && sc == 0 {
+			p = 10 // DECIMAL == DECIMAL(10,0)
+		}
+		return fmt.Sprintf("decimal/%d/%d/%v", p, sc, t.Unsigned)
+	case *schema.FloatType:
+		cls := "single"
+		if t.T == TypeDouble || t.T == TypeReal || t.T == TypeFloat && t.Precision > 24 {
+			cls = "double"
+		}
+		return fmt.Sprintf("float/%s/%v", cls, t.Unsigned)
+	case *schema.IntegerType:
+		// Display width and ZEROFILL are deliberately not part of the formatted
+		// type (dropped from MySQL 8.0.19's information schema, ignored by the differ).
+		return fmt.Sprintf("int/%s/%v", t.T, t.Unsigned)
+	case *schema.StringType:
+		n := t.Size
+		if t.T == TypeChar && n == 0 {
+			n = 1 // CHAR == CHAR(1)
+		}
+		return fmt.Sprintf("%s/%d", t.T, n)
+	case *schema.TimeType:
+		p := 0
+		if t.Precision != nil {
+			p = *t.Precision
+		}
+		return fmt.Sprintf("%s/%d", t.T, p)
+	case *schema.EnumType:
+		return "enum/" + fmt.Sprint(len(t.Values)) + "/" + verifJoin(t.Values)
+	case *SetType:
+		return "set/" + fmt.Sprint(len(t.Values)) + "/" + verifJoin(t.Values)
+	case *schema.JSONType:
+		return "json"
+	case *schema.SpatialType:
+		return "spatial/" + t.T
+	case *schema.UUIDType:
+		return "uuid"
+	case *NetworkType:
+		return "net/" + t.T
+	}
+	return "other"
+}
+
+func verifJoin(vs []string) string {
+	s := ""
+	for _, v := range vs {
+		s += "[" + v + "]"
+	}
+	return s
 }
 
 // verifPlainVals: region of the listed finding C15-mysql-enum-quoting = enum /
